@@ -106,11 +106,11 @@ theorem gda_form {h : Host} {p : Option Str} (d : Str) (wh : h.wf = true) (wp : 
 theorem getDialAddr_url {h : Host} {p : Option Str} (d : Str) (wh : h.wf = true) (wp : portWf p = true) :
     getDialAddr (Dial.render (.host h p)) [] d = joinHostPort h.bare (p.getD d) := by
   have := gda_form d wh wp
-  simpa [getDialAddr] using this
+  simpa [getDialAddr_eq] using this
 
 /-- ★ `@name`: unchanged -/
 theorem getDialAddr_unix (url n d : Str) : getDialAddr url ('@' :: n) d = '@' :: n := by
-  simp [getDialAddr, hasAtPrefix]
+  simp [getDialAddr_eq, hasAtPrefix]
 
 /-! ### bracket trimming -/
 
@@ -118,12 +118,12 @@ theorem getDialAddr_unix (url n d : Str) : getDialAddr url ('@' :: n) d = '@' ::
 theorem trim_bracketed (x : Str) : tryTrimIpv6Brackets? ('[' :: x ++ [']']) = some x := by
   have hl : ('[' :: (x ++ [']'])).getLast? = some ']' := by
     rw [← List.cons_append, List.getLast?_concat]
-  simp [tryTrimIpv6Brackets?, slice?, hl]
+  simp [tryTrimIpv6Brackets?_eq, slice?, hl]
   omega
 
 /-- ★ anything that is not of the shape `[x]` is returned unchanged -/
 theorem trim_other (s : Str) (h : ¬ ∃ x, s = '[' :: x ++ [']']) : tryTrimIpv6Brackets? s = some s := by
-  unfold tryTrimIpv6Brackets?
+  rw [tryTrimIpv6Brackets?_eq]
   split
   · rfl
   · split
@@ -144,7 +144,7 @@ theorem trim_other (s : Str) (h : ¬ ∃ x, s = '[' :: x ++ [']']) : tryTrimIpv6
     · rfl
 
 theorem trim_never_panics (s : Str) : (tryTrimIpv6Brackets? s).isSome = true := by
-  unfold tryTrimIpv6Brackets?
+  rw [tryTrimIpv6Brackets?_eq]
   split
   · rfl
   · split
@@ -174,7 +174,7 @@ theorem getDialAddr_override {h : Host} {p : Option Str} (url d : Str) (wh : h.w
     getDialAddr url (Dial.render (.host h p)) d = joinHostPort h.bare (p.getD d) := by
   have ne := render_ne_nil (p := p) wh
   have l : (Dial.render (.host h p)).length > 0 := List.length_pos_iff.mpr ne
-  simp only [getDialAddr, l, if_true, render_no_at wh, Bool.false_eq_true, if_false]
+  simp only [getDialAddr_eq, l, if_true, render_no_at wh, Bool.false_eq_true, if_false]
   rw [trySplit_render wh wp]
   cases p with
   | none => simp [trim_bare wh]
@@ -205,7 +205,7 @@ theorem getDialAddr_bracketed {x : Str} (url d : Str) (hx : isV6Body x = true) :
       simp [hi]
   have ht := trim_total_bracketed x
   simp only [List.cons_append] at hs ht
-  simp [getDialAddr, hasAtPrefix, trySplitHostPort, hs, ht]
+  simp [getDialAddr_eq, hasAtPrefix, trySplitHostPort, hs, ht]
 
 /-- the URL authority after trimming is one of the forms `trySplit_render` understands -/
 theorem trim_authority {h : Host} {p : Option Str} (wh : h.wf = true) (wp : portWf p = true) :
